@@ -1,77 +1,70 @@
-(* The sorter with its chunks as FILES.
+(* The sorter with its chunks as FILES, over a plain, a scheduled and a faulty chunk storage.
 
    model/Sorter.v represents a chunk by the list of entries it holds.  Here the same sorter is written
    over chunk files: write_chunk and merge_chunks push their (sorted, merged) entries through the Writer
    model into a byte string, merge_chunks and the final merge open every chunk file (Reader::new: the
    trailer), put a fresh cursor on it and run the merger over those cursors (move_on_next only).
-   [file_sorter_refines]: this file-level sorter returns exactly what the list-level sorter returns - for
-   every configuration of the sorter and of its chunk writer, every merge function whose values fit the
-   u32 length limit, every insert sequence of fewer than 2^32 - 2 entries - unless a chunk file leaves the
-   physical envelope (2^64 bytes), which the model reports as Fail EFuel.  So every list-level theorem about
-   the sorter (C07 output, C08 bounds, C12 creator faults) is a theorem about the sorter that really writes
-   and re-reads its chunks, and "a chunk may be replaced by the entries it holds" is no longer a modelling
-   assumption.  Composition of: chunks are strictly ascending (SorterChunks), writer progress and the
-   written file is a well-formed store (WriterProgress, WriterStore), the empty file (EmptyFile), a fresh
-   cursor over a well-formed store yields its content and the merger over cursors is the merger over
-   lists (MergeCursors). *)
+
+   Generic part: the sorter over ANY chunk storage given by two functions - [wfile n es] writes the chunk
+   created as number n, [mergef n mf calls files] opens and merges chunk files during the operation that
+   follows creation number n - that meet a contract: a written chunk represents its entries or the write
+   fails with an excused error; a merge of files representing sorted lists is the merge of those lists or
+   fails with an excused error.  [gf_refines]: such a sorter returns exactly what the list-level sorter
+   returns, or fails with an excused error - never another result, never another error, never a panic of
+   its own - for every configuration, every merge function whose values fit the u32 length limit (pure or
+   not, failing or not) and every insert sequence of fewer than 2^32 - 2 entries.
+
+   Three storages meet the contract:
+   - the plain one (Writer model over a Vec, Reader + cursor + merger over cursors), excused error: the
+     chunk file left the physical envelope of 2^64 bytes (Fail EFuel)            -> [file_sorter_refines] (C07)
+   - the same with every write of the sink and every read of the source split or interrupted by benign
+     schedules of their own                                                      -> [sched_sorter_refines] (C11)
+   - the same with, per chunk written, a sink that fails the write of one byte position or its flush, and
+     per merge, sources whose trailer read fails or whose loader fails one block load; excused: the
+     injected I/O error, an error the merge function itself returned             -> [faulty_sorter_refines] (C12)
+   So every list-level theorem about the sorter (C07 output, C08 bounds, C12 creator faults) is a theorem
+   about the sorter that really writes and re-reads its chunks, and "a chunk may be replaced by the entries
+   it holds" is no longer a modelling assumption.  Composition of: chunks are strictly ascending
+   (SorterChunks), writer progress and the written file is a well-formed store (WriterProgress,
+   WriterStore), the empty file (EmptyFile), a fresh cursor over a well-formed store yields its content and
+   the merger over cursors is the merger over lists (MergeCursors), writer and reader under schedules
+   (IoWriter, IoReader), writer over a failing sink and merger over failing sources (IoWriter,
+   MergeSourceFault). *)
 From Coq Require Import Lia ZArith ZifyN ZifyBool ZifyNat Sorted Permutation.
 From Grenad.gen Require Import Consts.
-From Grenad.model Require Import Base Block Trailer Writer Reader Spec Merger Sorter.
+From Grenad.model Require Import Base Block Trailer Writer Reader Spec Merger Sorter IoModel.
 From Grenad.proofs Require Import BaseProofs SortedFacts BlockProofs MergerProofs MergeRefine MergeWriter MergeCursors
-  SorterChunks WriterStore WriterProgress ReaderRefine EmptyFile SpecProofs SorterRefine.
+  SorterChunks WriterStore WriterProgress ReaderRefine EmptyFile SpecProofs SorterRefine
+  IoProofs WriterHom IoWriter IoReader MergeSourceFault BlockCursorProofs.
 Ltac Zify.zify_post_hook ::= Z.div_mod_to_equations.
 
-Section FileSorter.
-  Variable compress : N -> N -> bytes -> outcome bytes.
-  Variable decompress : N -> bytes -> outcome bytes.
-  Variable wc : wcfg.                         (* the configuration of the chunk writers *)
+Record fstate : Type := mk_fstate {
+  ff_pending : list entry; ff_buf : ebuf; ff_files : list bytes; ff_calls : N; ff_events : list sevent }.
 
-  (* the physical envelope of one written file: the file and every block buffer below 2^64 bytes *)
-  Definition physb (s : vsink) (lg : list emitted) : bool :=
-    (len (vs_bytes s) <? 2^64) && forallb (fun e => len (em_bytes e) <? 2^64) lg.
+Definition f_new (c : scfg) : fstate := mk_fstate [] (mk_ebuf (round_up (sc_init_cap c)) 0 0) [] 0 [].
 
-  (* a chunk: the Writer over the chunk storage, entries inserted in order, into_inner *)
-  Definition write_chunk_file (es : list entry) : outcome bytes :=
-    match snd (w_run_gen vsink vs_wr vs_fl vs_count compress wc vs_empty es) with
-    | Done (s, lg, m) => if physb s lg then Done (vs_bytes s) else Fail EFuel
-    | Panic => Panic
-    | Fail e => Fail e
-    end.
+(* ================= the sorter over an abstract chunk storage ================= *)
+Section Generic.
+  Variable wfile : N -> list entry -> outcome bytes.
+  Variable mergef : N -> mergefn -> N -> list bytes -> outcome (list entry * N).
 
-  (* Reader::new(chunk).into_cursor(): the trailer, then a fresh cursor; also the stored entry count *)
-  Definition open_chunk (f : bytes) : outcome (rsrc * N) :=
-    do m <- open_meta f;
-    Done (mk_rsrc (load_block decompress f (m_codec m)) (m_root m) (m_levels m) cs_fresh, m_count m).
-  Fixpoint open_chunks (fs : list bytes) : outcome (list rsrc * N) :=
-    match fs with
-    | [] => Done ([], 0)
-    | f :: r => do x <- open_chunk f; do y <- open_chunks r; Done (fst x :: fst y, snd x + snd y)
-    end.
-  (* the merger over the cursors of the chunk files (fuel: one step per stored entry, plus one) *)
-  Definition merge_files (mf : mergefn) (calls : N) (fs : list bytes) : outcome (list entry * N) :=
-    do x <- open_chunks fs;
-    cm_run rsrc rsnext mf calls (S (N.to_nat (snd x))) (fst x).
-
-  Record fstate : Type := mk_fstate {
-    ff_pending : list entry; ff_buf : ebuf; ff_files : list bytes; ff_calls : N; ff_events : list sevent }.
-
-  Definition f_new (c : scfg) : fstate := mk_fstate [] (mk_ebuf (round_up (sc_init_cap c)) 0 0) [] 0 [].
-
-  Definition f_write_chunk (mf : mergefn) (st : fstate) : outcome fstate :=
+  (* write_chunk: create (number n = creations so far), sort, group, merge, write *)
+  Definition gf_write_chunk (mf : mergefn) (st : fstate) : outcome fstate :=
     let sorted := sort_entries (rev (ff_pending st)) in
     do r <- merge_groups mf (ff_calls st) (group_sorted sorted);
-    do f <- write_chunk_file (fst r);
+    do f <- wfile (creates (ff_events st)) (fst r);
     let b := ff_buf st in
     Done (mk_fstate [] (mk_ebuf (eb_L b) 0 0) (ff_files st ++ [f]) (snd r)
                     (EvSpill (len (ff_files st) + 1) :: EvCreate :: ff_events st)).
 
-  Definition f_merge_chunks (mf : mergefn) (st : fstate) : outcome fstate :=
-    do r <- merge_files mf (ff_calls st) (ff_files st);
-    do f <- write_chunk_file (fst r);
+  (* merge_chunks: create, open and merge every chunk, write the result *)
+  Definition gf_merge_chunks (mf : mergefn) (st : fstate) : outcome fstate :=
+    do r <- mergef (creates (ff_events st)) mf (ff_calls st) (ff_files st);
+    do f <- wfile (creates (ff_events st)) (fst r);
     Done (mk_fstate (ff_pending st) (ff_buf st) [f] (snd r)
                     (EvMerge (len (ff_files st)) :: EvCreate :: ff_events st)).
 
-  Definition f_insert (c : scfg) (mf : mergefn) (st : fstate) (k v : bytes) : outcome fstate :=
+  Definition gf_insert (c : scfg) (mf : mergefn) (st : fstate) (k v : bytes) : outcome fstate :=
     if (U32_MAX <? len k) || (U32_MAX <? len v) then Panic else
     let sz := entry_sz k v in
     do f <- eb_fits (ff_buf st) sz;
@@ -80,90 +73,39 @@ Section FileSorter.
       do b <- eb_insert 80 (ff_buf st) sz;
       Done (mk_fstate ((k, v) :: ff_pending st) b (ff_files st) (ff_calls st) (ff_events st))
     else
-      do st1 <- f_write_chunk mf st;
+      do st1 <- gf_write_chunk mf st;
       do b <- eb_insert 80 (ff_buf st1) sz;
       let st2 := mk_fstate [(k, v)] b (ff_files st1) (ff_calls st1) (ff_events st1) in
-      if sc_max_chunks c <=? len (ff_files st2) then f_merge_chunks mf st2 else Done st2.
+      if sc_max_chunks c <=? len (ff_files st2) then gf_merge_chunks mf st2 else Done st2.
 
-  Fixpoint f_inserts (c : scfg) (mf : mergefn) (st : fstate) (ins : list entry) : outcome fstate :=
+  Fixpoint gf_inserts (c : scfg) (mf : mergefn) (st : fstate) (ins : list entry) : outcome fstate :=
     match ins with
     | [] => Done st
-    | (k, v) :: r => do st' <- f_insert c mf st k v; f_inserts c mf st' r
+    | (k, v) :: r => do st' <- gf_insert c mf st k v; gf_inserts c mf st' r
     end.
 
   (* into_stream_merger_iter: flush, open every chunk, merge; also the chunk files (into_reader_cursors) *)
-  Definition f_finish (mf : mergefn) (st : fstate) : outcome (list entry * list bytes) :=
-    do st1 <- f_write_chunk mf st;
-    do r <- merge_files mf (ff_calls st1) (ff_files st1);
+  Definition gf_finish (mf : mergefn) (st : fstate) : outcome (list entry * list bytes) :=
+    do st1 <- gf_write_chunk mf st;
+    do r <- mergef (creates (ff_events st1)) mf (ff_calls st1) (ff_files st1);
     Done (fst r, ff_files st1).
 
-  Definition file_sorter_run (c : scfg) (mf : mergefn) (ins : list entry) : outcome (list entry) :=
-    do st <- f_inserts c mf (f_new c) ins;
-    do r <- f_finish mf st;
+  Definition gf_run (c : scfg) (mf : mergefn) (ins : list entry) : outcome (list entry) :=
+    do st <- gf_inserts c mf (f_new c) ins;
+    do r <- gf_finish mf st;
     Done (fst r).
 
-  (* ================= a chunk file is a source that yields its entries ================= *)
-  Hypothesis codec_ok : forall b z, compress (wc_codec wc) (wc_level wc) b = Done z -> decompress (wc_codec wc) z = Done b.
-  Hypothesis compress_total : forall b, exists z, compress (wc_codec wc) (wc_level wc) b = Done z.
-  Hypothesis HwL : wc_levels wc < 256.
-  Hypothesis HwI : 1 <= wc_interval wc.
-  Hypothesis HwK : wc_codec wc <= 5.
-
-  Definition chunk_file (f : bytes) (es : list entry) : Prop :=
-    exists s, open_chunk f = Done (s, len es) /\ yields rsrc rsnext s es.
-
-  Lemma physb_true s lg : physb s lg = true -> len (vs_bytes s) < 2^64 /\ mem_ok lg.
-  Proof.
-    unfold physb. intro H. apply andb_true_iff in H. destruct H as [A B]. split; [apply N.ltb_lt; exact A|].
-    intros e He. rewrite forallb_forall in B. apply N.ltb_lt. exact (B e He).
-  Qed.
-
-  Theorem write_chunk_file_spec es : ssorted es -> entries_ok es -> len es + 1 <= U32_MAX ->
-    write_chunk_file es = Fail EFuel \/ exists f, write_chunk_file es = Done f /\ chunk_file f es.
-  Proof.
-    intros Hs Hok Hlen.
-    destruct (w_run_progress compress decompress wc codec_ok compress_total es Hs Hok Hlen HwL) as (s & lg & m & Hrun).
-    unfold write_chunk_file. rewrite Hrun. cbn [snd]. destruct (physb s lg) eqn:Ep; [right|left; reflexivity].
-    destruct (physb_true s lg Ep) as [H64 Hmem]. exists (vs_bytes s). split; [reflexivity|].
-    unfold chunk_file, open_chunk. destruct es as [|e0 es'].
-    - destruct (empty_file_reads_empty compress decompress wc codec_ok _ s lg m HwL HwI HwK Hrun H64 Hmem) as (Ho & Hn & Hc & Hh & _).
-      rewrite Ho. cbn [bind]. eexists. split; [rewrite Hn; reflexivity|]. cbn [yields].
-      destruct (Hh [ONext]) as (st & E). cbn [run_ops length repeat] in E.
-      destruct (cstep (load_block decompress (vs_bytes s) (m_codec m)) (m_root m) (m_levels m) cs_fresh ONext) as [[st1 r1]| |] eqn:Ec;
-        cbn [bind fst snd] in E; try discriminate.
-      injection E as _ Er. subst r1. eexists. unfold rsnext. cbn [r_ld r_root r_levels r_st]. rewrite Ec. cbn [bind fst snd]. reflexivity.
-    - set (es := e0 :: es') in *.
-      assert (Hne : es <> []) by discriminate.
-      assert (Hsb : sorted_strictb (map fst es) = true) by (apply sorted_strictb_SS; exact Hs).
-      destruct (written_file_wf compress decompress wc codec_ok es _ s lg m HwL HwI Hrun Hne Hsb H64 Hmem)
-        as (bstore & W & Hcont & _ & Hcd & Hcnt & Hlv & _).
-      destruct (written_file_roundtrip compress decompress wc codec_ok es _ s lg m HwL HwI HwK Hrun Hne Hsb H64 Hmem
-                  ltac:(change U32_MAX with 4294967295 in Hlen; lia)) as (Ho & _).
-      rewrite Ho. cbn [bind]. eexists. split; [rewrite Hcnt; reflexivity|].
-      rewrite Hcd, Hlv. apply yields_rsrc. rewrite <- Hcont. apply fresh_cursor_yields_content. exact W.
-  Qed.
-
-  (* opening the chunk files and merging their cursors = merging the entry lists *)
-  Lemma open_chunks_spec : forall fs ess, Forall2 chunk_file fs ess ->
-    exists srcs, open_chunks fs = Done (srcs, N.of_nat (total_len ess)) /\ Forall2 (yields rsrc rsnext) srcs ess.
-  Proof.
-    induction 1 as [|f es fs ess (s & Eo & Y) _ (srcs & E & F)]; cbn [open_chunks].
-    - exists []. split; [reflexivity|constructor].
-    - rewrite Eo, E. cbn [bind fst snd]. exists (s :: srcs). split; [|constructor; assumption].
-      f_equal. f_equal. rewrite total_len_cons, len_length. lia.
-  Qed.
-
-  Theorem merge_files_lists (mf : mergefn) calls fs ess : Forall2 chunk_file fs ess ->
-    merge_files mf calls fs = merge_run mf calls ess.
-  Proof.
-    intro H. destruct (open_chunks_spec fs ess H) as (srcs & E & F). unfold merge_files. rewrite E. cbn [bind fst snd].
-    rewrite Nat2N.id. apply cm_run_lists. exact F.
-  Qed.
-
-  (* ================= facts about the list-level chunks ================= *)
+  (* ---- the contract of a chunk storage ---- *)
+  Variable rep : bytes -> list entry -> Prop.      (* the file represents these entries *)
+  Variable bad : err -> Prop.                      (* the errors the storage is excused for *)
   Variable mf : mergefn.
   Hypothesis mf_values_ok : forall n k vs v, mf n k vs = Done v -> len v <= U32_MAX.
+  Hypothesis wfile_spec : forall n es, ssorted es -> entries_ok es -> len es + 1 <= U32_MAX ->
+    (exists e, wfile n es = Fail e /\ bad e) \/ exists f, wfile n es = Done f /\ rep f es.
+  Hypothesis mergef_spec : forall n calls fs ess, Forall2 rep fs ess ->
+    (exists e, mergef n mf calls fs = Fail e /\ bad e) \/ mergef n mf calls fs = merge_run mf calls ess.
 
+  (* ---- facts about the list-level chunks ---- *)
   Lemma SS_blt_NoDup l : StronglySorted blt l -> NoDup l.
   Proof.
     induction 1 as [|a l _ IH Hf]; constructor; [|exact IH].
@@ -219,18 +161,15 @@ Section FileSorter.
       intros k Hk. destruct (proj1 (B k) Hk) as (s & Hin & Hks). apply in_flat_map. exists s. split; assumption.
   Qed.
 
-  (* ================= the simulation ================= *)
+  (* ---- the simulation ---- *)
   Definition fsim (fs : fstate) (st : sstate) : Prop :=
     ff_pending fs = ss_pending st /\ ff_buf fs = ss_buf st /\ ff_calls fs = ss_calls st /\ ff_events fs = ss_events st /\
-    Forall2 chunk_file (ff_files fs) (ss_chunks st).
+    Forall2 rep (ff_files fs) (ss_chunks st).
   (* what the list-level state keeps: chunks ascending, lengths within the u32 limit, at most n entries alive *)
   Definition SInv (st : sstate) (n : nat) : Prop :=
     Forall ssorted (ss_chunks st) /\ Forall entries_ok (ss_chunks st) /\ entries_ok (ss_pending st) /\
     (total_len (ss_chunks st) + length (ss_pending st) <= n)%nat.
-  (* same outcome, unless the file-level run left the physical envelope *)
-  Definition orel {A B} (R : A -> B -> Prop) (x : outcome A) (y : outcome B) : Prop :=
-    x = Fail EFuel \/
-    match x, y with Done a, Done b => R a b | Panic, Panic => True | Fail e, Fail e' => e = e' | _, _ => False end.
+  Notation orel := (orel bad).
 
   Lemma Forall2_len {A B} (R : A -> B -> Prop) l l' : Forall2 R l l' -> len l = len l'.
   Proof. intro H. rewrite !len_length. f_equal. induction H; cbn [length]; congruence. Qed.
@@ -240,17 +179,18 @@ Section FileSorter.
 
   Lemma write_chunk_sim fs st n : fsim fs st -> SInv st n -> N.of_nat n + 1 <= U32_MAX ->
     orel (fun fs' st' => fsim fs' st' /\ SInv st' n /\ ss_pending st' = [] /\ ss_buf st' = mk_ebuf (eb_L (ss_buf st)) 0 0)
-         (f_write_chunk mf fs) (s_write_chunk mf st).
+         (gf_write_chunk mf fs) (s_write_chunk mf st).
   Proof.
     destruct fs as [p b files calls ev]. destruct st as [p' b' chunks calls' ev'].
     unfold fsim, SInv. cbn [ff_pending ff_buf ff_files ff_calls ff_events ss_pending ss_buf ss_chunks ss_calls ss_events].
     intros (<- & <- & <- & <- & HF) (Hs & Hok & Hp & Hn) Hb.
-    unfold f_write_chunk, s_write_chunk. cbn [ff_pending ff_buf ff_files ff_calls ff_events ss_pending ss_buf ss_chunks ss_calls ss_events].
+    unfold gf_write_chunk, s_write_chunk. cbn [ff_pending ff_buf ff_files ff_calls ff_events ss_pending ss_buf ss_chunks ss_calls ss_events].
     destruct (merge_groups mf calls (group_sorted (sort_entries (rev p)))) as [[ch n']| |] eqn:E; cbn [bind fst snd];
-      [|right; exact I|right; reflexivity].
+      [|apply orel_panic|apply orel_fail].
     destruct (chunk_of_pending p calls ch n' Hp E) as (Hcs & Hcok & Hcl).
-    destruct (write_chunk_file_spec ch Hcs Hcok ltac:(rewrite len_length; lia)) as [Ef|(f & Ef & Hcf)]; rewrite Ef; cbn [bind]; [left; reflexivity|].
-    right. cbn [ff_pending ff_buf ff_files ff_calls ff_events ss_pending ss_buf ss_chunks ss_calls ss_events].
+    destruct (wfile_spec (creates ev) ch Hcs Hcok ltac:(rewrite len_length; lia)) as [(e & Ef & Hbad)|(f & Ef & Hcf)]; rewrite Ef; cbn [bind];
+      [apply orel_early; exact Hbad|].
+    apply orel_done. cbn [ff_pending ff_buf ff_files ff_calls ff_events ss_pending ss_buf ss_chunks ss_calls ss_events].
     rewrite (Forall2_len _ _ _ HF). split; [repeat split; try reflexivity; apply Forall2_app; [exact HF|constructor; [exact Hcf|constructor]]|].
     split; [|split; reflexivity]. split; [apply Forall_app; split; [exact Hs|constructor; [exact Hcs|constructor]]|].
     split; [apply Forall_app; split; [exact Hok|constructor; [exact Hcok|constructor]]|]. split; [constructor|].
@@ -258,41 +198,40 @@ Section FileSorter.
   Qed.
 
   Lemma merge_chunks_sim fs st n : fsim fs st -> SInv st n -> N.of_nat n + 1 <= U32_MAX ->
-    orel (fun fs' st' => fsim fs' st' /\ SInv st' n) (f_merge_chunks mf fs) (s_merge_chunks mf st).
+    orel (fun fs' st' => fsim fs' st' /\ SInv st' n) (gf_merge_chunks mf fs) (s_merge_chunks mf st).
   Proof.
     destruct fs as [p b files calls ev]. destruct st as [p' b' chunks calls' ev'].
     unfold fsim, SInv. cbn [ff_pending ff_buf ff_files ff_calls ff_events ss_pending ss_buf ss_chunks ss_calls ss_events].
     intros (<- & <- & <- & <- & HF) (Hs & Hok & Hp & Hn) Hb.
-    unfold f_merge_chunks, s_merge_chunks. cbn [ff_pending ff_buf ff_files ff_calls ff_events ss_pending ss_buf ss_chunks ss_calls ss_events].
-    rewrite (merge_files_lists mf calls files chunks HF).
-    destruct (merge_run mf calls chunks) as [[out n']| |] eqn:E; cbn [bind fst snd]; [|right; exact I|right; reflexivity].
+    unfold gf_merge_chunks, s_merge_chunks. cbn [ff_pending ff_buf ff_files ff_calls ff_events ss_pending ss_buf ss_chunks ss_calls ss_events].
+    destruct (mergef_spec (creates ev) calls files chunks HF) as [(e & Em & Hbad)|Em]; rewrite Em; [cbn [bind]; apply orel_early; exact Hbad|].
+    destruct (merge_run mf calls chunks) as [[out n']| |] eqn:E; cbn [bind fst snd]; [|apply orel_panic|apply orel_fail].
     destruct (chunk_of_merge calls chunks out n' Hs Hok E) as (Hcs & Hcok & Hcl).
-    destruct (write_chunk_file_spec out Hcs Hcok ltac:(rewrite len_length; lia)) as [Ef|(f & Ef & Hcf)]; rewrite Ef; cbn [bind]; [left; reflexivity|].
-    right. cbn [ff_pending ff_buf ff_files ff_calls ff_events ss_pending ss_buf ss_chunks ss_calls ss_events].
+    destruct (wfile_spec (creates ev) out Hcs Hcok ltac:(rewrite len_length; lia)) as [(e & Ef & Hbad)|(f & Ef & Hcf)]; rewrite Ef; cbn [bind];
+      [apply orel_early; exact Hbad|].
+    apply orel_done. cbn [ff_pending ff_buf ff_files ff_calls ff_events ss_pending ss_buf ss_chunks ss_calls ss_events].
     rewrite (Forall2_len _ _ _ HF). split; [repeat split; try reflexivity; constructor; [exact Hcf|constructor]|].
     split; [constructor; [exact Hcs|constructor]|]. split; [constructor; [exact Hcok|constructor]|]. split; [exact Hp|].
     cbn [total_len fold_right]. lia.
   Qed.
 
   Lemma insert_sim c fs st n k v : fsim fs st -> SInv st n -> N.of_nat (S n) + 1 <= U32_MAX ->
-    orel (fun fs' st' => fsim fs' st' /\ SInv st' (S n)) (f_insert c mf fs k v) (s_insert c mf st k v).
+    orel (fun fs' st' => fsim fs' st' /\ SInv st' (S n)) (gf_insert c mf fs k v) (s_insert c mf st k v).
   Proof.
-    intros Hsim Hinv Hb. unfold f_insert, s_insert. generalize 80%nat. intro fuel.
-    destruct ((U32_MAX <? len k) || (U32_MAX <? len v)) eqn:Eg; [right; exact I|].
+    intros Hsim Hinv Hb. unfold gf_insert, s_insert. generalize 80%nat. intro fuel.
+    destruct ((U32_MAX <? len k) || (U32_MAX <? len v)) eqn:Eg; [apply orel_panic|].
     assert (Hkv : entry_ok (k, v)).
     { apply orb_false_iff in Eg. destruct Eg as [A B]. apply N.ltb_ge in A, B. split; assumption. }
     pose proof Hsim as (Ep & Eb & Ec & Ee & HF). pose proof Hinv as (Hs & Hok & Hp & Hn).
-    rewrite Eb. destruct (eb_fits (ss_buf st) (entry_sz k v)) as [f| |]; cbn [bind]; [|right; exact I|right; reflexivity].
+    rewrite Eb. destruct (eb_fits (ss_buf st) (entry_sz k v)) as [f| |]; cbn [bind]; [|apply orel_panic|apply orel_fail].
     destruct (f || (negb (sc_threshold c <=? eb_L (ss_buf st)) && sc_realloc c)).
-    - destruct (eb_insert fuel (ss_buf st) (entry_sz k v)) as [b1| |]; cbn [bind]; [|right; exact I|right; reflexivity].
-      right. split.
+    - destruct (eb_insert fuel (ss_buf st) (entry_sz k v)) as [b1| |]; cbn [bind]; [|apply orel_panic|apply orel_fail].
+      apply orel_done. split.
       + unfold fsim. cbn [ff_pending ff_buf ff_files ff_calls ff_events ss_pending ss_buf ss_chunks ss_calls ss_events]. rewrite Ep, Ec, Ee. auto.
       + unfold SInv. cbn [ss_pending ss_chunks]. split; [exact Hs|]. split; [exact Hok|]. split; [constructor; assumption|cbn [length]; lia].
-    - destruct (write_chunk_sim fs st n Hsim Hinv ltac:(lia)) as [Ew|Hw]; [rewrite Ew; left; reflexivity|].
-      destruct (f_write_chunk mf fs) as [fs1| |] eqn:Ef1; destruct (s_write_chunk mf st) as [st1| |] eqn:Es1; try contradiction;
-        cbn [bind]; [|right; exact I|right; exact Hw].
-      destruct Hw as (Hsim1 & Hinv1 & Hp1 & Hb1). pose proof Hsim1 as (Ep1 & Eb1 & Ec1 & Ee1 & HF1). pose proof Hinv1 as (Hs1 & Hok1 & _ & Hn1).
-      rewrite Eb1. destruct (eb_insert fuel (ss_buf st1) (entry_sz k v)) as [b1| |]; cbn [bind]; [|right; exact I|right; reflexivity].
+    - eapply orel_bind; [exact (write_chunk_sim fs st n Hsim Hinv ltac:(lia))|].
+      intros fs1 st1 (Hsim1 & Hinv1 & Hp1 & Hb1). pose proof Hsim1 as (Ep1 & Eb1 & Ec1 & Ee1 & HF1). pose proof Hinv1 as (Hs1 & Hok1 & _ & Hn1).
+      rewrite Eb1. destruct (eb_insert fuel (ss_buf st1) (entry_sz k v)) as [b1| |]; cbn [bind]; [|apply orel_panic|apply orel_fail].
       cbn [ff_files ss_chunks]. rewrite (Forall2_len _ _ _ HF1).
       set (fs2 := mk_fstate [(k, v)] b1 (ff_files fs1) (ff_calls fs1) (ff_events fs1)).
       set (st2 := mk_sstate [(k, v)] b1 (ss_chunks st1) (ss_calls st1) (ss_events st1)).
@@ -303,64 +242,382 @@ Section FileSorter.
         rewrite Hp1 in Hn1. cbn [length] in *. lia. }
       destruct (sc_max_chunks c <=? len (ss_chunks st1)).
       + exact (merge_chunks_sim fs2 st2 (S n) Hsim2 Hinv2 Hb).
-      + right. split; assumption.
+      + apply orel_done. split; assumption.
   Qed.
 
   Lemma inserts_sim c : forall ins fs st n, fsim fs st -> SInv st n -> N.of_nat (n + length ins) + 1 <= U32_MAX ->
-    orel (fun fs' st' => fsim fs' st' /\ SInv st' (n + length ins)) (f_inserts c mf fs ins) (s_inserts c mf st ins).
+    orel (fun fs' st' => fsim fs' st' /\ SInv st' (n + length ins)) (gf_inserts c mf fs ins) (s_inserts c mf st ins).
   Proof.
-    induction ins as [|[k v] ins IH]; intros fs st n Hsim Hinv Hb; cbn [f_inserts s_inserts length].
-    - right. rewrite Nat.add_0_r. split; assumption.
-    - cbn [length] in Hb. destruct (insert_sim c fs st n k v Hsim Hinv ltac:(lia)) as [E|H]; [rewrite E; left; reflexivity|].
-      destruct (f_insert c mf fs k v) as [fs1| |]; destruct (s_insert c mf st k v) as [st1| |]; try contradiction; cbn [bind];
-        [|right; exact I|right; exact H].
-      destruct H as [Hsim1 Hinv1]. replace (n + S (length ins))%nat with (S n + length ins)%nat by lia.
+    induction ins as [|[k v] ins IH]; intros fs st n Hsim Hinv Hb; cbn [gf_inserts s_inserts length].
+    - apply orel_done. rewrite Nat.add_0_r. split; assumption.
+    - cbn [length] in Hb. eapply orel_bind; [exact (insert_sim c fs st n k v Hsim Hinv ltac:(lia))|].
+      intros fs1 st1 [Hsim1 Hinv1]. replace (n + S (length ins))%nat with (S n + length ins)%nat by lia.
       apply IH; [assumption|assumption|]. replace (S n + length ins)%nat with (n + S (length ins))%nat by lia. exact Hb.
   Qed.
 
   Lemma finish_sim fs st n : fsim fs st -> SInv st n -> N.of_nat n + 1 <= U32_MAX ->
-    orel (fun x y => fst x = fst y /\ Forall2 chunk_file (snd x) (snd y)) (f_finish mf fs) (s_finish mf st).
+    orel (fun x y => fst x = fst y /\ Forall2 rep (snd x) (snd y)) (gf_finish mf fs) (s_finish mf st).
   Proof.
-    intros Hsim Hinv Hb. unfold f_finish, s_finish.
-    destruct (write_chunk_sim fs st n Hsim Hinv Hb) as [Ew|Hw]; [rewrite Ew; left; reflexivity|].
-    destruct (f_write_chunk mf fs) as [fs1| |]; destruct (s_write_chunk mf st) as [st1| |]; try contradiction;
-      cbn [bind]; [|right; exact I|right; exact Hw].
-    destruct Hw as ((Ep1 & Eb1 & Ec1 & Ee1 & HF1) & _). rewrite (merge_files_lists mf _ _ _ HF1), Ec1.
-    destruct (merge_run mf (ss_calls st1) (ss_chunks st1)) as [[out n']| |]; cbn [bind fst snd]; [|right; exact I|right; reflexivity].
-    right. split; [reflexivity|exact HF1].
+    intros Hsim Hinv Hb. unfold gf_finish, s_finish.
+    eapply orel_bind; [exact (write_chunk_sim fs st n Hsim Hinv Hb)|].
+    intros fs1 st1 ((Ep1 & Eb1 & Ec1 & Ee1 & HF1) & _).
+    destruct (mergef_spec (creates (ff_events fs1)) (ff_calls fs1) (ff_files fs1) (ss_chunks st1) HF1) as [(e & Em & Hbad)|Em]; rewrite Em;
+      [cbn [bind]; apply orel_early; exact Hbad|]. rewrite Ec1.
+    destruct (merge_run mf (ss_calls st1) (ss_chunks st1)) as [[out n']| |]; cbn [bind fst snd]; [|apply orel_panic|apply orel_fail].
+    apply orel_done. split; [reflexivity|exact HF1].
   Qed.
 
-  (* ================= the sorter over chunk files is the sorter over entry lists ================= *)
-  Theorem file_sorter_refines c ins : len ins + 1 <= U32_MAX ->
-    file_sorter_run c mf ins = Fail EFuel \/ file_sorter_run c mf ins = sorter_run c mf ins.
+  Lemma sim0 c : fsim (f_new c) (s_new c) /\ SInv (s_new c) 0.
+  Proof. unfold fsim, SInv, f_new, s_new; cbn. repeat split; constructor. Qed.
+
+  (* ---- the sorter over this storage is the sorter over entry lists ---- *)
+  Theorem gf_refines_rel c ins : len ins + 1 <= U32_MAX -> orel eq (gf_run c mf ins) (sorter_run c mf ins).
   Proof.
-    intro Hb. unfold file_sorter_run, sorter_run.
-    assert (Hsim0 : fsim (f_new c) (s_new c)) by (unfold fsim, f_new, s_new; cbn; repeat split; constructor).
-    assert (Hinv0 : SInv (s_new c) 0) by (unfold SInv, s_new; cbn; repeat split; constructor).
-    rewrite len_length in Hb.
-    destruct (inserts_sim c ins (f_new c) (s_new c) 0 Hsim0 Hinv0 ltac:(cbn [Nat.add]; exact Hb)) as [E|H]; [rewrite E; left; reflexivity|].
-    destruct (f_inserts c mf (f_new c) ins) as [fs1| |]; destruct (s_inserts c mf (s_new c) ins) as [st1| |]; try contradiction; cbn [bind];
-      [|right; reflexivity|right; rewrite H; reflexivity].
-    destruct H as [Hsim1 Hinv1]. cbn [Nat.add] in Hinv1.
-    destruct (finish_sim fs1 st1 (length ins) Hsim1 Hinv1 Hb) as [E|H]; [rewrite E; left; reflexivity|].
-    destruct (f_finish mf fs1) as [x| |]; destruct (s_finish mf st1) as [y| |]; try contradiction; cbn [bind];
-      [|right; reflexivity|right; rewrite H; reflexivity].
-    right. rewrite (proj1 H). reflexivity.
+    intro Hb. unfold gf_run, sorter_run. rewrite len_length in Hb. destruct (sim0 c) as [Hsim0 Hinv0].
+    eapply orel_bind; [exact (inserts_sim c ins (f_new c) (s_new c) 0 Hsim0 Hinv0 ltac:(cbn [Nat.add]; exact Hb))|].
+    intros fs1 st1 [Hsim1 Hinv1]. cbn [Nat.add] in Hinv1.
+    eapply orel_bind; [exact (finish_sim fs1 st1 (length ins) Hsim1 Hinv1 Hb)|].
+    intros x y [E _]. apply orel_done. exact E.
   Qed.
 
-  (* the chunk files handed out by into_reader_cursors hold the chunks of the list-level sorter *)
-  Theorem file_sorter_chunks c ins fs1 x : len ins + 1 <= U32_MAX ->
-    f_inserts c mf (f_new c) ins = Done fs1 -> f_finish mf fs1 = Done x ->
+  Theorem gf_refines c ins : len ins + 1 <= U32_MAX ->
+    (exists e, gf_run c mf ins = Fail e /\ bad e) \/ gf_run c mf ins = sorter_run c mf ins.
+  Proof.
+    intro Hb. destruct (gf_refines_rel c ins Hb) as [a b <-| |e|e y He]; [right; reflexivity|right; reflexivity|right; reflexivity|].
+    left. exists e. split; [reflexivity|exact He].
+  Qed.
+
+  (* the chunk files handed out by into_reader_cursors represent the chunks of the list-level sorter *)
+  Theorem gf_chunks c ins fs1 x : len ins + 1 <= U32_MAX ->
+    gf_inserts c mf (f_new c) ins = Done fs1 -> gf_finish mf fs1 = Done x ->
     exists st1 y, s_inserts c mf (s_new c) ins = Done st1 /\ s_finish mf st1 = Done y /\
-      fst x = fst y /\ Forall2 chunk_file (snd x) (snd y).
+      fst x = fst y /\ Forall2 rep (snd x) (snd y).
   Proof.
-    intros Hb E1 E2.
-    assert (Hsim0 : fsim (f_new c) (s_new c)) by (unfold fsim, f_new, s_new; cbn; repeat split; constructor).
-    assert (Hinv0 : SInv (s_new c) 0) by (unfold SInv, s_new; cbn; repeat split; constructor).
-    rewrite len_length in Hb.
-    destruct (inserts_sim c ins (f_new c) (s_new c) 0 Hsim0 Hinv0 ltac:(cbn [Nat.add]; exact Hb)) as [E|H]; [rewrite E1 in E; discriminate|].
-    rewrite E1 in H. destruct (s_inserts c mf (s_new c) ins) as [st1| |]; try contradiction. destruct H as [Hsim1 Hinv1]. cbn [Nat.add] in Hinv1.
-    destruct (finish_sim fs1 st1 (length ins) Hsim1 Hinv1 Hb) as [E|H]; [rewrite E2 in E; discriminate|].
-    rewrite E2 in H. destruct (s_finish mf st1) as [y| |] eqn:Ey; try contradiction. exists st1, y. split; [reflexivity|]. split; [exact Ey|exact H].
+    intros Hb E1 E2. rewrite len_length in Hb. destruct (sim0 c) as [Hsim0 Hinv0].
+    pose proof (inserts_sim c ins (f_new c) (s_new c) 0 Hsim0 Hinv0 ltac:(cbn [Nat.add]; exact Hb)) as H. rewrite E1 in H.
+    inversion H as [a st1 [Hsim1 Hinv1] Ea Es| | |]; subst. cbn [Nat.add] in Hinv1.
+    pose proof (finish_sim fs1 st1 (length ins) Hsim1 Hinv1 Hb) as H2. rewrite E2 in H2.
+    inversion H2 as [a y Hxy Ea2 Ey| | |]; subst. exists st1, y. split; [reflexivity|]. split; [symmetry; exact Ey|exact Hxy].
   Qed.
-End FileSorter.
+End Generic.
+
+(* ================= what a chunk file is ================= *)
+(* the loader presents the entries: as a well-formed store with that content, or - no entry - as a root
+   block without entries (the file of a writer that finished without an insert) *)
+Definition store_of (ld : N -> N -> outcome block) (root levels : N) (es : list entry) : Prop :=
+  (exists bs, wf_store ld root levels bs /\ content root levels bs = es) \/
+  (es = [] /\ exists b ridx, (forall ord, ld ord root = Done b) /\ wfblock b [] ridx).
+
+Lemma store_yields ld root levels es : store_of ld root levels es -> yields cstate (rnext ld root levels) cs_fresh es.
+Proof.
+  intros [(bs & W & <-)|(-> & b & ridx & Hld & W)].
+  - apply fresh_cursor_yields_content. exact W.
+  - cbn [yields]. destruct (step_empty ld root levels b ridx Hld W cs_fresh ONext fresh_empty) as (st' & E & _). exists st'. exact E.
+Qed.
+
+Lemma store_sched dec file codec scheds reqs root levels es :
+  (forall ord, benign (scheds ord)) -> (forall ord, Forall (fun r => 1 <= r) (reqs ord)) ->
+  store_of (load_block dec file codec) root levels es -> store_of (ld_sched dec file codec scheds reqs) root levels es.
+Proof.
+  intros Hb Hq [(bs & W & E)|(E & b & ridx & Hld & W)].
+  - left. exists bs. split; [exact (wf_store_sched dec file codec scheds reqs root levels bs Hb Hq W)|exact E].
+  - right. split; [exact E|]. exists b, ridx. split; [|exact W]. intro ord. unfold ld_sched.
+    rewrite (load_block_sched_eq dec file codec (scheds ord) (reqs ord) ord root (Hb ord) (Hq ord) (load_done_header _ _ _ _ _ _ (Hld ord))).
+    exact (Hld ord).
+Qed.
+
+Notation INJ := (EIo IO_INJECTED).
+
+(* the merger over sources each of which yields its list or fails with the injected error on the way *)
+Lemma cm_run_faulty_sources (mf : mergefn) calls : (forall a k vs, mf a k vs <> Panic) ->
+  forall srcs ess,
+  Forall2 (fun s es => yields rsrc rsnext s es \/ exists p, (length p <= length es)%nat /\ fails_after rsrc rsnext INJ s p) srcs ess ->
+  cm_run rsrc rsnext mf calls (Datatypes.S (total_len ess)) srcs = merge_run mf calls ess \/
+  exists x, cm_run rsrc rsnext mf calls (Datatypes.S (total_len ess)) srcs = Fail x /\ (x = INJ \/ mf_fails mf x).
+Proof.
+  intros Hnp srcs ess Hf.
+  assert (G : Forall2 (yields rsrc rsnext) srcs ess \/
+              exists ds, Forall2 (srcdesc rsrc rsnext INJ) srcs ds /\ existsb fst ds = true /\ (tot ds <= total_len ess)%nat).
+  { induction Hf as [|s es srcs ess Hs _ IH].
+    - left. constructor.
+    - destruct Hs as [Hy|(p & Hp & Hfa)]; destruct IH as [Hall|(ds & Hd & Hb & Ht)].
+      + left. constructor; assumption.
+      + right. exists ((false, es) :: ds). split; [constructor; [exact Hy|exact Hd]|]. split; [cbn; exact Hb|].
+        cbn [tot total_len fold_right snd]. fold (tot ds). fold (total_len ess). lia.
+      + right. exists ((true, p) :: map (fun l => (false, l)) ess).
+        split; [constructor; [exact Hfa|]|].
+        { clear - Hall. induction Hall as [|a b la lb H _ IH]; cbn [map]; constructor; [exact H|exact IH]. }
+        split; [reflexivity|]. cbn [tot total_len fold_right snd]. fold (total_len ess).
+        assert (E : tot (map (fun l : list entry => (false, l)) ess) = total_len ess).
+        { clear. induction ess as [|l ess IH]; [reflexivity|]. cbn [map tot total_len fold_right snd] in *. fold (total_len ess). unfold tot in IH. rewrite IH. reflexivity. }
+        unfold tot in E. rewrite E. lia.
+      + right. exists ((true, p) :: ds). split; [constructor; [exact Hfa|exact Hd]|]. split; [reflexivity|].
+        cbn [tot total_len fold_right snd]. fold (tot ds). fold (total_len ess). lia. }
+  destruct G as [Hall|(ds & Hd & Hb & Ht)].
+  - left. apply cm_run_lists. exact Hall.
+  - right. exact (cm_run_source_fault rsrc rsnext INJ mf Hnp calls (Datatypes.S (total_len ess)) srcs ds Hd Hb ltac:(lia)).
+Qed.
+
+Section Storages.
+  Variable compress : N -> N -> bytes -> outcome bytes.
+  Variable decompress : N -> bytes -> outcome bytes.
+  Variable wc : wcfg.                         (* the configuration of the chunk writers *)
+  Hypothesis codec_ok : forall b z, compress (wc_codec wc) (wc_level wc) b = Done z -> decompress (wc_codec wc) z = Done b.
+  Hypothesis compress_total : forall b, exists z, compress (wc_codec wc) (wc_level wc) b = Done z.
+  Hypothesis HwL : wc_levels wc < 256.
+  Hypothesis HwI : 1 <= wc_interval wc.
+  Hypothesis HwK : wc_codec wc <= 5.
+
+  (* the physical envelope of one written file: the file and every block buffer below 2^64 bytes *)
+  Definition physb (file : bytes) (lg : list emitted) : bool :=
+    (len file <? 2^64) && forallb (fun e => len (em_bytes e) <? 2^64) lg.
+
+  (* the file opens with the right count and its loader presents the entries *)
+  Definition rep (f : bytes) (es : list entry) : Prop :=
+    exists m, open_meta f = Done m /\ m_count m = len es /\
+              store_of (load_block decompress f (m_codec m)) (m_root m) (m_levels m) es.
+
+  (* ---------------- the plain storage ---------------- *)
+  (* a chunk: the Writer over the chunk storage, entries inserted in order, into_inner *)
+  Definition write_chunk_file (es : list entry) : outcome bytes :=
+    match snd (w_run_plain compress wc es) with
+    | Done (s, lg, m) => if physb (vs_bytes s) lg then Done (vs_bytes s) else Fail EFuel
+    | Panic => Panic
+    | Fail e => Fail e
+    end.
+
+  (* Reader::new(chunk).into_cursor(): the trailer, then a fresh cursor; also the stored entry count *)
+  Definition open_chunk (f : bytes) : outcome (rsrc * N) :=
+    do m <- open_meta f;
+    Done (mk_rsrc (load_block decompress f (m_codec m)) (m_root m) (m_levels m) cs_fresh, m_count m).
+  Fixpoint open_chunks (fs : list bytes) : outcome (list rsrc * N) :=
+    match fs with
+    | [] => Done ([], 0)
+    | f :: r => do x <- open_chunk f; do y <- open_chunks r; Done (fst x :: fst y, snd x + snd y)
+    end.
+  (* the merger over the cursors of the chunk files (fuel: one step per stored entry, plus one) *)
+  Definition merge_files (mf : mergefn) (calls : N) (fs : list bytes) : outcome (list entry * N) :=
+    do x <- open_chunks fs;
+    cm_run rsrc rsnext mf calls (S (N.to_nat (snd x))) (fst x).
+
+  Definition f_inserts := gf_inserts (fun _ => write_chunk_file) (fun _ => merge_files).
+  Definition f_finish := gf_finish (fun _ => write_chunk_file) (fun _ => merge_files).
+  Definition file_sorter_run := gf_run (fun _ => write_chunk_file) (fun _ => merge_files).
+
+  Lemma physb_true file lg : physb file lg = true -> len file < 2^64 /\ mem_ok lg.
+  Proof.
+    unfold physb. intro H. apply andb_true_iff in H. destruct H as [A B]. split; [apply N.ltb_lt; exact A|].
+    intros e He. rewrite forallb_forall in B. apply N.ltb_lt. exact (B e He).
+  Qed.
+
+  Theorem write_chunk_file_spec es : ssorted es -> entries_ok es -> len es + 1 <= U32_MAX ->
+    write_chunk_file es = Fail EFuel \/ exists f, write_chunk_file es = Done f /\ rep f es.
+  Proof.
+    intros Hs Hok Hlen.
+    destruct (w_run_progress compress decompress wc codec_ok compress_total es Hs Hok Hlen HwL) as (s & lg & m & Hrun).
+    unfold write_chunk_file, w_run_plain. rewrite Hrun. cbn [snd]. destruct (physb (vs_bytes s) lg) eqn:Ep; [right|left; reflexivity].
+    destruct (physb_true _ lg Ep) as [H64 Hmem]. exists (vs_bytes s). split; [reflexivity|].
+    unfold rep. destruct es as [|e0 es'].
+    - destruct (empty_run compress decompress wc codec_ok _ s lg m HwL HwI HwK Hrun H64 Hmem) as (Ho & Hn & Hc & Hlv & b & ridx & Hld & W).
+      exists m. split; [exact Ho|]. split; [exact Hn|]. right. split; [reflexivity|]. exists b, ridx. rewrite Hc. split; [exact Hld|exact W].
+    - set (es := e0 :: es') in *.
+      assert (Hne : es <> []) by discriminate.
+      assert (Hsb : sorted_strictb (map fst es) = true) by (apply sorted_strictb_SS; exact Hs).
+      destruct (written_file_wf compress decompress wc codec_ok es _ s lg m HwL HwI Hrun Hne Hsb H64 Hmem)
+        as (bstore & W & Hcont & _ & Hcd & Hcnt & Hlv & _).
+      destruct (written_file_roundtrip compress decompress wc codec_ok es _ s lg m HwL HwI HwK Hrun Hne Hsb H64 Hmem
+                  ltac:(change U32_MAX with 4294967295 in Hlen; lia)) as (Ho & _).
+      exists m. split; [exact Ho|]. split; [exact Hcnt|]. left. exists bstore. rewrite Hcd, Hlv. split; [exact W|exact Hcont].
+  Qed.
+
+  (* opening the chunk files and merging their cursors = merging the entry lists *)
+  Lemma open_chunks_spec : forall fs ess, Forall2 rep fs ess ->
+    exists srcs, open_chunks fs = Done (srcs, N.of_nat (total_len ess)) /\ Forall2 (yields rsrc rsnext) srcs ess.
+  Proof.
+    induction 1 as [|f es fs ess (m & Eo & Ec & St) _ (srcs & E & F)]; cbn [open_chunks].
+    - exists []. split; [reflexivity|constructor].
+    - unfold open_chunk. rewrite Eo, E. cbn [bind fst snd]. eexists. split; [|constructor; [apply yields_rsrc; apply store_yields; exact St|exact F]].
+      f_equal. f_equal. rewrite Ec, total_len_cons, len_length. lia.
+  Qed.
+
+  Theorem merge_files_lists (mf : mergefn) calls fs ess : Forall2 rep fs ess ->
+    merge_files mf calls fs = merge_run mf calls ess.
+  Proof.
+    intro H. destruct (open_chunks_spec fs ess H) as (srcs & E & F). unfold merge_files. rewrite E. cbn [bind fst snd].
+    rewrite Nat2N.id. apply cm_run_lists. exact F.
+  Qed.
+
+  Section WithMf.
+    Variable mf : mergefn.
+    Hypothesis mf_values_ok : forall n k vs v, mf n k vs = Done v -> len v <= U32_MAX.
+
+    Theorem file_sorter_refines c ins : len ins + 1 <= U32_MAX ->
+      file_sorter_run c mf ins = Fail EFuel \/ file_sorter_run c mf ins = sorter_run c mf ins.
+    Proof.
+      intro Hb. unfold file_sorter_run.
+      destruct (gf_refines (fun _ => write_chunk_file) (fun _ => merge_files) rep (fun e => e = EFuel) mf mf_values_ok) with (c := c) (ins := ins)
+        as [(e & E & ->)|E]; [| |exact Hb|left; exact E|right; exact E].
+      - intros n es Hs Hok Hl. destruct (write_chunk_file_spec es Hs Hok Hl) as [E|(f & E & R)]; [left; exists EFuel; auto|right; exists f; auto].
+      - intros n calls fs ess HF. right. exact (merge_files_lists mf calls fs ess HF).
+    Qed.
+
+    Theorem file_sorter_chunks c ins fs1 x : len ins + 1 <= U32_MAX ->
+      f_inserts c mf (f_new c) ins = Done fs1 -> f_finish mf fs1 = Done x ->
+      exists st1 y, s_inserts c mf (s_new c) ins = Done st1 /\ s_finish mf st1 = Done y /\
+        fst x = fst y /\ Forall2 rep (snd x) (snd y).
+    Proof.
+      intros Hb. unfold f_inserts, f_finish.
+      apply (gf_chunks (fun _ => write_chunk_file) (fun _ => merge_files) rep (fun e => e = EFuel) mf mf_values_ok); [| |exact Hb].
+      - intros n es Hs Hok Hl. destruct (write_chunk_file_spec es Hs Hok Hl) as [E|(f & E & R)]; [left; exists EFuel; auto|right; exists f; auto].
+      - intros n calls fs ess HF. right. exact (merge_files_lists mf calls fs ess HF).
+    Qed.
+
+    (* ---------------- the storage under schedules (C11) ----------------
+       the sink of the chunk created as number n accepts bytes according to [wsched n]; during the merge
+       that follows creation number n, source number i reads its trailer under [osched n i] and performs its
+       block loads under [lsched n i] with the buffer sizes [lreqs n i] *)
+    Section Sched.
+    Variable wsched : N -> list resp.
+    Variable osched : N -> N -> N -> list resp.
+    Variable lsched : N -> N -> N -> list resp.
+    Variable lreqs : N -> N -> N -> list N.
+    Hypothesis wsched_benign : forall n, benign (wsched n).
+    Hypothesis osched_benign : forall n i k, benign (osched n i k).
+    Hypothesis lsched_benign : forall n i ord, benign (lsched n i ord).
+    Hypothesis lreqs_pos : forall n i ord, Forall (fun r => 1 <= r) (lreqs n i ord).
+
+    Definition write_chunk_file_sched (n : N) (es : list entry) : outcome bytes :=
+      match snd (w_run_sched compress (wsched n) wc es) with
+      | Done (s, lg, m) => if physb (sk_bytes s) lg then Done (sk_bytes s) else Fail EFuel
+      | Panic => Panic
+      | Fail e => Fail e
+      end.
+    Fixpoint open_chunks_sched (n i : N) (fs : list bytes) : outcome (list rsrc * N) :=
+      match fs with
+      | [] => Done ([], 0)
+      | f :: r =>
+        do m <- open_meta_sched (osched n i) f;
+        do y <- open_chunks_sched n (i + 1) r;
+        Done (mk_rsrc (ld_sched decompress f (m_codec m) (lsched n i) (lreqs n i)) (m_root m) (m_levels m) cs_fresh :: fst y,
+              m_count m + snd y)
+      end.
+    Definition merge_files_sched (n : N) (mf0 : mergefn) (calls : N) (fs : list bytes) : outcome (list entry * N) :=
+      do x <- open_chunks_sched n 0 fs;
+      cm_run rsrc rsnext mf0 calls (S (N.to_nat (snd x))) (fst x).
+    Definition sched_sorter_run := gf_run write_chunk_file_sched merge_files_sched.
+
+    Lemma write_sched_eq n es : write_chunk_file_sched n es = write_chunk_file es.
+    Proof.
+      unfold write_chunk_file_sched, write_chunk_file.
+      destruct (sched_run_eq compress (wsched n) wc es (wsched_benign n)) as [_ H]. cbv zeta in H.
+      destruct H as [[[s1 lg1] m1] [[s2 lg2] m2] (Eb & _ & El & Em)| |e|e y []]; cbn [fst snd] in *; try reflexivity.
+      subst lg2 m2. rewrite Eb. reflexivity.
+    Qed.
+
+    Lemma open_chunks_sched_spec n : forall fs ess i, Forall2 rep fs ess ->
+      exists srcs, open_chunks_sched n i fs = Done (srcs, N.of_nat (total_len ess)) /\ Forall2 (yields rsrc rsnext) srcs ess.
+    Proof.
+      induction fs as [|f fs IH]; intros ess i H; inversion H as [|? es ? ess' (m & Eo & Ec & St) Hr]; subst; cbn [open_chunks_sched].
+      - exists []. split; [reflexivity|constructor].
+      - destruct (IH ess' (i + 1) Hr) as (srcs & E & F).
+        rewrite (open_meta_sched_eq (osched n i) f (osched_benign n i)), Eo, E. cbn [bind fst snd]. eexists. split.
+        + f_equal. f_equal. rewrite Ec, total_len_cons, len_length. lia.
+        + constructor; [|exact F]. apply yields_rsrc. apply store_yields.
+          exact (store_sched decompress f (m_codec m) (lsched n i) (lreqs n i) _ _ _ (lsched_benign n i) (lreqs_pos n i) St).
+    Qed.
+
+    Theorem sched_sorter_refines c ins : len ins + 1 <= U32_MAX ->
+      sched_sorter_run c mf ins = Fail EFuel \/ sched_sorter_run c mf ins = sorter_run c mf ins.
+    Proof.
+      intro Hb. unfold sched_sorter_run.
+      destruct (gf_refines write_chunk_file_sched merge_files_sched rep (fun e => e = EFuel) mf mf_values_ok) with (c := c) (ins := ins)
+        as [(e & E & ->)|E]; [| |exact Hb|left; exact E|right; exact E].
+      - intros n es Hs Hok Hl. rewrite write_sched_eq.
+        destruct (write_chunk_file_spec es Hs Hok Hl) as [E|(f & E & R)]; [left; exists EFuel; auto|right; exists f; auto].
+      - intros n calls fs ess HF. right. destruct (open_chunks_sched_spec n fs ess 0 HF) as (srcs & E & F).
+        unfold merge_files_sched. rewrite E. cbn [bind fst snd]. rewrite Nat2N.id. apply cm_run_lists. exact F.
+    Qed.
+
+    End Sched.
+
+    Section Faulty.
+    (* ---------------- the faulty storage (C12) ----------------
+       [wfault n = Some (p, fl)]: the sink of the chunk created as number n fails the write of byte number p
+       (and, if fl, its flush); [ofault n i]: during the merge after creation number n, opening source i
+       fails; [lfault n i = Some j]: its loader fails its j-th block load.  All with the injected error. *)
+    Variable wfault : N -> option (N * bool).
+    Variable ofault : N -> N -> bool.
+    Variable lfault : N -> N -> option N.
+    Hypothesis mf_no_panic : forall a k vs, mf a k vs <> Panic.
+
+    Definition write_chunk_file_faulty (n : N) (es : list entry) : outcome bytes :=
+      match snd (match wfault n with
+                 | Some (p, fl) => w_run_fault compress (Some p) fl wc es
+                 | None => w_run_fault compress None false wc es
+                 end) with
+      | Done (s, lg, m) => if physb (vs_bytes (fk_sink s)) lg then Done (vs_bytes (fk_sink s)) else Fail EFuel
+      | Panic => Panic
+      | Fail e => Fail e
+      end.
+    Fixpoint open_chunks_faulty (n i : N) (fs : list bytes) : outcome (list rsrc * N) :=
+      match fs with
+      | [] => Done ([], 0)
+      | f :: r =>
+        do m <- (if ofault n i then Fail INJ else open_meta f);
+        do y <- open_chunks_faulty n (i + 1) r;
+        let ld := load_block decompress f (m_codec m) in
+        Done (mk_rsrc (match lfault n i with Some j => faulty_load ld j | None => ld end) (m_root m) (m_levels m) cs_fresh :: fst y,
+              m_count m + snd y)
+      end.
+    Definition merge_files_faulty (n : N) (mf0 : mergefn) (calls : N) (fs : list bytes) : outcome (list entry * N) :=
+      do x <- open_chunks_faulty n 0 fs;
+      cm_run rsrc rsnext mf0 calls (S (N.to_nat (snd x))) (fst x).
+    Definition faulty_sorter_run := gf_run write_chunk_file_faulty merge_files_faulty.
+
+    Lemma write_faulty_cases n es : write_chunk_file_faulty n es = Fail INJ \/ write_chunk_file_faulty n es = write_chunk_file es.
+    Proof.
+      unfold write_chunk_file_faulty, write_chunk_file. destruct (wfault n) as [[p fl]|].
+      - destruct (fault_run compress p fl wc es) as [E|[_ H]]; cbv zeta in *; [rewrite E; left; reflexivity|].
+        destruct H as [[[s1 lg1] m1] [[s2 lg2] m2] (Eb & _ & _ & El & Em)| |e|e y He]; cbn [fst snd] in *;
+          [right; subst lg2 m2; rewrite Eb; reflexivity|right; reflexivity|right; reflexivity|left; rewrite He; reflexivity].
+      - destruct (quiet_run_eq compress wc es) as [_ H]. cbv zeta in H. right.
+        destruct H as [[[s1 lg1] m1] [[s2 lg2] m2] (Eb & El & Em)| |e|e y []]; cbn [fst snd] in *; try reflexivity.
+        subst lg2 m2. rewrite Eb. reflexivity.
+    Qed.
+
+    Lemma open_chunks_faulty_spec n : forall fs ess i, Forall2 rep fs ess ->
+      open_chunks_faulty n i fs = Fail INJ \/
+      exists srcs, open_chunks_faulty n i fs = Done (srcs, N.of_nat (total_len ess)) /\
+        Forall2 (fun s es => yields rsrc rsnext s es \/ exists p, (length p <= length es)%nat /\ fails_after rsrc rsnext INJ s p) srcs ess.
+    Proof.
+      induction fs as [|f fs IH]; intros ess i H; inversion H as [|? es ? ess' (m & Eo & Ec & St) Hr]; subst; cbn [open_chunks_faulty].
+      - right. exists []. split; [reflexivity|constructor].
+      - destruct (ofault n i); [left; reflexivity|]. rewrite Eo. cbn [bind].
+        destruct (IH ess' (i + 1) Hr) as [E|(srcs & E & F)]; rewrite E; cbn [bind fst snd]; [left; reflexivity|].
+        right. eexists. split; [f_equal; f_equal; rewrite Ec, total_len_cons, len_length; lia|]. constructor; [|exact F].
+        pose proof (store_yields _ _ _ _ St) as Y. destruct (lfault n i) as [j|].
+        + destruct (faulty_yields _ j _ _ es cs_fresh Y) as [Hy|(p & Hp & Hfa)].
+          * left. apply yields_rsrc. exact Hy.
+          * right. exists p. split; [exact Hp|]. apply fails_rsrc. exact Hfa.
+        + left. apply yields_rsrc. exact Y.
+    Qed.
+
+    (* excused: the physical envelope, the injected I/O error, an error the merge function itself returned *)
+    Definition excused (e : err) : Prop := e = EFuel \/ e = INJ \/ mf_fails mf e.
+
+    Theorem faulty_sorter_refines c ins : len ins + 1 <= U32_MAX ->
+      (exists e, faulty_sorter_run c mf ins = Fail e /\ excused e) \/ faulty_sorter_run c mf ins = sorter_run c mf ins.
+    Proof.
+      intro Hb. unfold faulty_sorter_run.
+      apply (gf_refines write_chunk_file_faulty merge_files_faulty rep excused mf mf_values_ok); [| |exact Hb].
+      - intros n es Hs Hok Hl. destruct (write_faulty_cases n es) as [E|E]; [left; exists INJ; split; [exact E|right; left; reflexivity]|].
+        rewrite E. destruct (write_chunk_file_spec es Hs Hok Hl) as [E'|(f & E' & R)]; [left; exists EFuel; split; [exact E'|left; reflexivity]|right; exists f; auto].
+      - intros n calls fs ess HF. unfold merge_files_faulty.
+        destruct (open_chunks_faulty_spec n fs ess 0 HF) as [E|(srcs & E & F)]; rewrite E; cbn [bind fst snd];
+          [left; exists INJ; split; [reflexivity|right; left; reflexivity]|].
+        rewrite Nat2N.id. destruct (cm_run_faulty_sources mf calls mf_no_panic srcs ess F) as [Em|(x & Em & Hx)]; [right; exact Em|].
+        left. exists x. split; [exact Em|right; exact Hx].
+    Qed.
+    End Faulty.
+  End WithMf.
+End Storages.
